@@ -351,3 +351,13 @@ def run(ck):
         fn_ = [cs for cs in ev.calls() if fnm is not None and cs.callee_body() is fnm]
         inl = fnm is not None and fnm.key in ev.raw.get("inlined", []) and any(any(T.path_has(ev, a, ".ssi_signo") for a in c.args) for c in ev.calls() if c.name in ("try_from", "from", "try_into", "into") and not ev.is_cleanup(c.bb))
         ck.verdict((bool(fn_) and all(T.path_has(ev, c.args[0], ".ssi_signo") for c in fn_)) or inl, "5", "T6-provenance", ev, "signal()=from_num(ssi_signo)", "the reported signal is decoded from ssi_signo", "Event::signal does not decode ssi_signo", site=ev.where())
+    # ---- shared clauses demonstrated by seeding round 7 (the property broken from a distant module) --------------
+    from props import common as _c7
+    import importlib as _il
+    _m = lambda n: _il.import_module('props.' + n)
+    _c7.dispatch_infra(ck, "6")  # a sibling's deferred Disable never reaches the signal source
+    _c7.import_results(ck, _m("C05"), "1", "Poll::poll", "6")
+    _c7.import_results(ck, _m("C02"), "2", "Poll::poll", "6")
+    _c7.import_e3(ck, "6", lambda inst: True)  # a Signals source inside a TransientSource: map() reaches the current child
+
+
